@@ -71,6 +71,14 @@ type ReaderScn struct {
 	// that probes for fast paths); all of them serve the same stream, schedule
 	// and fault
 	Rich bool `json:"rich,omitempty"`
+	// GC: the garbage collector runs at an instant the scenario chooses - a
+	// collection (with time for finalizers to run) after every GCEvery-th
+	// NextBlock return ("mid"), after the end of the stream once the parser
+	// itself is unreachable ("end"), or both.  Blocks the caller still holds
+	// must not notice (a parser that hands its buffer back to a pool from a
+	// finalizer, a pool emptied in the middle of a parse).
+	GC      string `json:"gc,omitempty"`
+	GCEvery int    `json:"gc_every,omitempty"`
 	// Std: the reader handed to NewBlockParser is a standard-library value
 	// (a callee may type-switch on well-known concrete types): "bytes.Buffer",
 	// "bytes.Reader", "strings.Reader" hold the stream up to the fault point
